@@ -1104,9 +1104,16 @@ func (m *Machine) slice(fr *Frame, x *ssa.Slice) Value {
 	}
 	if x.High != nil {
 		hi = m.concInt(m.get(fr, x.High), "slice high")
+		if hi < 0 {
+			// (-1 is the "absent" sentinel below: a negative bound must panic, not fall back to len)
+			m.goPanic(fmt.Sprintf("runtime error: slice bounds out of range [:%d]", hi))
+		}
 	}
 	if x.Max != nil {
 		max = m.concInt(m.get(fr, x.Max), "slice max")
+		if max < 0 {
+			m.goPanic(fmt.Sprintf("runtime error: slice bounds out of range [::%d]", max))
+		}
 	}
 	switch b := base.(type) {
 	case StringVal:
